@@ -8,9 +8,7 @@
    The suppression tests of show_error are modelled only as the two subscripts
    they evaluate (`lines[lineno - 1]`, and `lines[lineno - 2]` when lineno >= 2
    -- the code after fix 36cb910): the generated inputs of the correspondence
-   contain no ignore comments.  The subscripts of `lines` that show_error
-   evaluates, with their guards, are regenerated from node_visitor.py into
-   Gen/Total.v and compared with `pinned_subscripts` below. *)
+   contain no ignore comments. *)
 From Coq Require Import String List Bool ZArith Lia.
 Import ListNotations.
 Open Scope Z_scope.
@@ -22,15 +20,21 @@ Definition py_index {A : Type} (l : list A) (i : Z) : option A :=
   if 0 <=? i then (if i <? n then nth_error l (Z.to_nat i) else None)
   else if - n <=? i then nth_error l (Z.to_nat (n + i)) else None.
 
-Definition CONTEXT_LINES : Z := 3.
+(* The constants of show_error, TRANSLATED from node_visitor.py into
+   Gen.Total.show_error_params (the shape around them is checked by the translator):
+     lines[lineno - 1]                                          this line
+     lines[lineno - prev_off] if lineno >= prev_min else ""     previous line
+     range(max(lineno - context, 1), min(lineno + context + after_extra, len(lines) + 1))
+     lines[i - 1]                                               context lines *)
+Record emit_params := { ep_context : Z; ep_after_extra : Z; ep_prev_off : Z; ep_prev_min : Z }.
 
-(* what the model was written for: every `lines[...]` in show_error as
-   (index expression, guarding condition of the enclosing conditional
-   expression or ""), in source order; the bounds of the context loop *)
-Definition pinned_subscripts : list (String.string * String.string) :=
-  [ ("lineno - 1", ""); ("lineno - 2", "lineno >= 2"); ("i - 1", ""); ("lineno - 1", "") ]%string.
-Definition pinned_context_bounds : String.string * String.string :=
-  ("max(lineno - self.CONTEXT_LINES, 1)", "min(lineno + self.CONTEXT_LINES + 1, len(lines) + 1)")%string.
+(* what the theorems need of them: the reported line lies in the context window, and the
+   previous-line subscript is only evaluated where it is non-negative *)
+Definition params_ok (P : emit_params) : bool :=
+  (0 <=? ep_context P) && (1 <=? ep_context P + ep_after_extra P) && (0 <=? ep_after_extra P)
+  && (1 <=? ep_prev_off P) && (ep_prev_off P <=? ep_prev_min P).
+
+Definition default_params : emit_params := {| ep_context := 3; ep_after_extra := 1; ep_prev_off := 2; ep_prev_min := 2 |}.
 
 (* one printed context line: its number and whether the caret line follows it *)
 Definition ctx_entry := (Z * bool)%type.
@@ -54,22 +58,22 @@ Fixpoint ctx_loop {A : Type} (lines : list A) (lineno : Z) (has_col : bool) (lo 
       end
   end.
 
-Definition emit {A : Type} (lines : list A) (lineno col : option Z) : outcome :=
+Definition emit_p {A : Type} (P : emit_params) (lines : list A) (lineno col : option Z) : outcome :=
   match lineno with
   | None => Emitted None col []
   | Some ln =>
       match py_index lines (ln - 1) with          (* this_line = lines[lineno - 1] *)
       | None => Crash
       | Some _ =>
-          (* prev_line = lines[lineno - 2].strip() if lineno >= 2 else ""
+          (* prev_line = lines[lineno - prev_off].strip() if lineno >= prev_min else ""
              (for lineno < 2 nothing is evaluated: the this_line subscript, which
              already succeeded, stands in) *)
-          match (if 2 <=? ln then py_index lines (ln - 2) else py_index lines (ln - 1)) with
+          match (if ep_prev_min P <=? ln then py_index lines (ln - ep_prev_off P) else py_index lines (ln - 1)) with
           | None => Crash
           | Some _ =>
               let n := Z.of_nat (length lines) in
-              let min_line := Z.max (ln - CONTEXT_LINES) 1 in
-              let max_line := Z.min (ln + CONTEXT_LINES + 1) (n + 1) in
+              let min_line := Z.max (ln - ep_context P) 1 in
+              let max_line := Z.min (ln + ep_context P + ep_after_extra P) (n + 1) in
               match ctx_loop lines ln (match col with Some _ => true | None => false end)
                              min_line (Z.to_nat (max_line - min_line)) with
               | None => Crash
@@ -78,6 +82,8 @@ Definition emit {A : Type} (lines : list A) (lineno col : option Z) : outcome :=
           end
       end
   end.
+
+Definition emit {A : Type} := @emit_p A default_params.
 
 (* what the property demands of an emitted diagnostic with a position *)
 Definition wellformed_position {A : Type} (lines : list A) (o : outcome) : Prop :=
